@@ -161,6 +161,34 @@ Theorem C19_sequence_fresh :
 Proof. exact drun_fresh. Qed.
 Print Assumptions C19_sequence_fresh.
 
+(* ---------------------------------------------------------------- bulks *)
+
+(* TaskManager.submit_tasks, bulk independence.  For every well-formed table whose uid is a
+   str attribute that verify does not touch: after any sequence of submit calls on any bulks
+   (objects listed once or twice, with or without application-chosen uids, some refused),
+   every description object that was not itself the refused one of a call is either untouched
+   or the normal form of ITS OWN source -- verify's result with the uid the application chose,
+   or with a generated one if it chose none.  No other element of any bulk occurs in nf_of:
+   position i's description does not depend on the others, and the refusal of j does not
+   alter i. *)
+Theorem C19_submit_bulk_independent :
+  forall T, wf_table T = true ->
+  ftype_is TStr (lookup uid_key (t_schema T)) = true -> mem_str uid_key (touched T) = false ->
+  forall (st0 : dstore) (known : list string) (gen : nat) (calls : list (list nat)) s' res,
+    submit_calls (verify T) calls (mkSub st0 known gen) = (s', res) ->
+    forall (i : nat) (d' : descr),
+      ~ In i (List.concat (map (fun r => out_slot (fst (fst r))) res)) ->
+      slot_get i (ss_store s') = Some d' ->
+      exists d, slot_get i st0 = Some d /\ nf_of T d d'.
+Proof. exact submit_bulk_independent_b. Qed.
+Print Assumptions C19_submit_bulk_independent.
+
+(* the generated table meets the two side conditions *)
+Theorem C19_generated_table_uid :
+  ftype_is TStr (lookup uid_key (t_schema td_table)) = true /\ mem_str uid_key (touched td_table) = false.
+Proof. vm_compute. split; reflexivity. Qed.
+Print Assumptions C19_generated_table_uid.
+
 (* ---------------------------------------------------------------- slots *)
 
 (* old encodings (ints, dicts, RO objects, (index, occupation) tuples) -> new format:
